@@ -17,6 +17,9 @@ def main(pid, tier, repo=None):
         proto.rule_writers(ctx, infos)
         proto.rule_nolock(ctx, infos)     # a guard held across a call that locks the same handle never returns
         proto.rule_publish_success(ctx)
+        from . import block
+        from ..engine import LIB_CRATES
+        block.run_block(ctx, LIB_CRATES)      # no blocking primitive besides the handle wait; no lock re-acquired while its guard is held
     ctx.assume("unwind edges are excluded: a panic inside the render closure is out of scope (C01 is the property about panics)")
     ctx.not_decided("that a later successful call yields the samples of a never-failed decode (value-level)")
     return ctx.finish(
